@@ -24,7 +24,7 @@ FUNCTIONS = ["PosePath3D.__init__", "positions_xyz / orientations_quat_wxyz / po
              "PoseTrajectory3D.reduce_to_ids", "speeds", "get_infos", "copy.deepcopy", "xyz_quat_wxyz_to_se3_poses",
              "se3_poses_to_xyz_quat_wxyz", "transformations.quaternion_matrix", "quaternion_from_matrix (eigh stub)"]
 BOUNDS = {"quick": "N = 2 (3 for index operations) poses, 4 pre-states (storage mode x views materialised), 1 operation",
-          "thorough": "N <= 3, 2 operations in sequence with reads of every view in between"}
+          "thorough": "additionally 9 pairs of operations in sequence with reads of every view in between (N = 2; 3 where an index operation takes part)"}
 STUBS = ["eigh stub (unit quaternion of a rotation block, non-negative scalar part)", "sqrt stub", "atan2 angle objects (project)"]
 ASSUMPTIONS = ["pre-state valid: unit quaternions, strictly increasing stamps"]
 OUTSIDE = ["float drift over long histories", "check()'s tolerances beyond exact group elements", "N beyond the bound",
@@ -47,12 +47,13 @@ def cases(tier, seed):
             out.append(dict(name="%s__%s" % (pre, op), kind="step", pre=pre, ops=[op], n=n))
     if tier != "quick":
         pairs = [("transform_left", "scale"), ("scale", "transform_right"), ("reduce_to_ids", "transform_left"),
-                 ("transform_left", "reduce_to_ids"), ("scale", "scale"), ("transform_right", "transform_propagate"),
-                 ("project_xy", "transform_left"), ("align_origin", "scale"), ("downsample", "transform_right"),
+                 ("transform_left", "reduce_to_ids"), ("scale", "scale"),
+                 ("align_origin", "scale"), ("downsample", "transform_right"),
                  ("deepcopy", "project_xy"), ("transform_left_pure_translation", "transform_left_pure_translation")]
         for pre in PRE:
             for a, b in pairs:
-                out.append(dict(name="%s__%s__%s" % (pre, a, b), kind="step", pre=pre, ops=[a, b], n=3))
+                n = 3 if ("reduce_to_ids" in (a, b) or "downsample" in (a, b)) else 2
+                out.append(dict(name="%s__%s__%s" % (pre, a, b), kind="step", pre=pre, ops=[a, b], n=n))
     return out
 
 
